@@ -1,76 +1,263 @@
 import ClipVerif.Model.Conv
+import Mathlib.Tactic.Ring
+import Mathlib.Tactic.Linarith
+import Mathlib.Tactic.NormNum
 /- helper lemmas and proofs for Props/C14.lean -/
 namespace Proofs.C14
 open Gen
 
+theorem and_mask (n : Nat) : n &&& 4294967295 = n % 2^32 := by
+  have := @Nat.and_two_pow_sub_one_eq_mod n 32
+  simpa using this
+
+theorem or_disjoint (x y : Nat) (hy : y < 2^32) : (x * 2^32) ||| y = x * 2^32 + y := by
+  rw [Nat.mul_comm]
+  exact (Nat.two_pow_add_eq_or_of_lt hy x).symm
+
+theorem mul_lt32 {x y : Nat} (hx : x < 2^32) (hy : y < 2^32) : x * y ≤ (2^32-1)*(2^32-1) :=
+  Nat.mul_le_mul (by omega) (by omega)
+
 theorem mulU64_correct (a b : UInt64) :
     (multiplyUInt64 a b).Hi64.toNat * 2 ^ 64 + (multiplyUInt64 a b).Lo64.toNat = a.toNat * b.toNat := by
-  sorry
+  simp only [multiplyUInt64, Id.run, pure]
+  simp only [UInt64.toNat_add, UInt64.toNat_mul, UInt64.toNat_and, UInt64.toNat_shiftRight, UInt64.toNat_shiftLeft, UInt64.toNat_or]
+  have e32 : UInt64.toNat 32 % 64 = 32 := by decide
+  have em : UInt64.toNat 4294967295 = 4294967295 := by decide
+  simp only [e32, em, and_mask, Nat.shiftRight_eq_div_pow]
+  have ha := a.toNat_lt
+  have hb := b.toNat_lt
+  generalize a.toNat = A at *
+  generalize b.toNat = B at *
+  have hal : A % 2^32 < 2^32 := Nat.mod_lt _ (by decide)
+  have hbl : B % 2^32 < 2^32 := Nat.mod_lt _ (by decide)
+  have hah : A / 2^32 < 2^32 := by omega
+  have hbh : B / 2^32 < 2^32 := by omega
+  have hA : A = 2^32 * (A / 2^32) + A % 2^32 := (Nat.div_add_mod A _).symm
+  have hB : B = 2^32 * (B / 2^32) + B % 2^32 := (Nat.div_add_mod B _).symm
+  generalize A % 2^32 = al at *
+  generalize A / 2^32 = ah at *
+  generalize B % 2^32 = bl at *
+  generalize B / 2^32 = bh at *
+  have hP := mul_lt32 hah hbh
+  have hQ := mul_lt32 hah hbl
+  have hR := mul_lt32 hal hbh
+  have hS := mul_lt32 hal hbl
+  have hAB : A * B = ah*bh*2^64 + (ah*bl + al*bh)*2^32 + al*bl := by subst hA hB; ring
+  rw [hAB]
+  generalize ah*bh = P at *
+  generalize ah*bl = Q at *
+  generalize al*bh = R at *
+  generalize al*bl = S at *
+  rw [Nat.mod_eq_of_lt (show S < 2^64 by omega)]
+  rw [Nat.mod_eq_of_lt (show Q < 2^64 by omega)]
+  rw [Nat.mod_eq_of_lt (show R < 2^64 by omega)]
+  rw [Nat.mod_eq_of_lt (show P < 2^64 by omega)]
+  rw [Nat.mod_eq_of_lt (show Q + S / 2^32 < 2^64 by omega)]
+  rw [Nat.mod_eq_of_lt (show R + (Q + S / 2^32) % 2^32 < 2^64 by omega)]
+  rw [Nat.shiftLeft_eq, Nat.mod_eq_of_lt (show (R + (Q + S / 2^32) % 2^32) % 2^32 * 2^32 < 2^64 by omega)]
+  rw [or_disjoint _ _ (Nat.mod_lt _ (by decide))]
+  omega
+theorem triSign_eq (x : Int64) : triSign x = if x.toInt < 0 then -1 else if x.toInt > 1 then 1 else 0 := by
+  simp only [triSign, Id.run, pure, Int64.lt_iff_toInt_lt, GT.gt, decide_eq_true_eq]
+  have h0 : (0:Int64).toInt = 0 := by decide
+  have h1 : (1:Int64).toInt = 1 := by decide
+  rw [h0, h1]
 
-theorem triSign_spec_full_false :
-    ¬ (∀ x : Int64, triSign x = if x.toInt < 0 then -1 else if x.toInt = 0 then 0 else 1) := by
-  sorry
 
 theorem triSign_spec_partial (x : Int64) (h1 : x ≠ 1) :
     triSign x = if x.toInt < 0 then -1 else if x.toInt = 0 then 0 else 1 := by
-  sorry
+  rw [triSign_eq]
+  have : x.toInt ≠ 1 := by
+    intro h; apply h1; apply Int64.toInt_inj.mp; rw [h]; decide
+  split
+  · rfl
+  · split <;> split <;> first | rfl | omega
+
+theorem triSign_spec_full_false :
+    ¬ (∀ x : Int64, triSign x = if x.toInt < 0 then -1 else if x.toInt = 0 then 0 else 1) := by
+  intro h
+  have := h 1
+  rw [triSign_eq] at this
+  revert this
+  decide
+theorem round53Nat_id {n : Nat} (h : n ≤ 2^53) : F.round53Nat n = n := by
+  rcases Nat.lt_or_eq_of_le h with h | h
+  · unfold F.round53Nat F.bitlen
+    by_cases h0 : n = 0
+    · simp [h0]
+    · have : n.log2 < 53 := (Nat.log2_lt h0).mpr h
+      simp only [h0, if_false]
+      rw [if_pos (by omega)]
+  · subst h
+    unfold F.round53Nat F.bitlen
+    rw [Nat.log2_two_pow]
+    decide
+
+theorem round53Nat_pos {n : Nat} (h : 0 < n) : 0 < F.round53Nat n := by
+  unfold F.round53Nat F.bitlen
+  have h0 : n ≠ 0 := by omega
+  simp only [h0, if_false]
+  split
+  · exact h
+  · rename_i hb
+    have hlog : 2 ^ n.log2 ≤ n := Nat.log2_self_le h0
+    generalize n.log2 = L at *
+    have hL : L = (L + 1 - 53) + 52 := by omega
+    generalize L + 1 - 53 = e at *
+    have hq : 0 < n >>> e := by
+      rw [Nat.shiftRight_eq_div_pow]
+      apply Nat.div_pos _ (Nat.two_pow_pos _)
+      calc 2 ^ e ≤ 2 ^ L := Nat.pow_le_pow_right (by decide) (by omega)
+        _ ≤ n := hlog
+    generalize n >>> e = q at *
+    simp only [Nat.shiftLeft_eq]
+    apply Nat.mul_pos _ (Nat.two_pow_pos _)
+    split
+    · omega
+    · split
+      · exact hq
+      · split <;> omega
+
+theorem round53_eq_zero (z : Int) : F.round53 z = 0 ↔ z = 0 := by
+  unfold F.round53
+  by_cases hz : z = 0
+  · subst hz; simp [F.round53Nat, F.bitlen]
+  · have := round53Nat_pos (n := z.natAbs) (by omega)
+    split <;> omega
+
+theorem round53_neg (z : Int) : F.round53 z < 0 ↔ z < 0 := by
+  unfold F.round53
+  by_cases hz : z = 0
+  · subst hz; simp [F.round53Nat, F.bitlen]
+  · have := round53Nat_pos (n := z.natAbs) (by omega)
+    split <;> omega
+
+theorem round53_pos (z : Int) : 0 < F.round53 z ↔ 0 < z := by
+  unfold F.round53
+  by_cases hz : z = 0
+  · subst hz; simp [F.round53Nat, F.bitlen]
+  · have := round53Nat_pos (n := z.natAbs) (by omega)
+    split <;> omega
+
+theorem round53_id {z : Int} (h : z.natAbs ≤ 2^53) : F.round53 z = z := by
+  unfold F.round53
+  rw [round53Nat_id h]
+  split <;> omega
+theorem bmod64 {x : Int} (h1 : -(2:Int)^63 ≤ x) (h2 : x < (2:Int)^63) : x.bmod (2^64) = x := by
+  apply Int.bmod_eq_of_le_mul_two
+  · norm_num at *; omega
+  · norm_num at *; omega
+
+theorem sub_toInt_of_range {a b : Int64} (ha : -(2:Int)^29 ≤ a.toInt ∧ a.toInt ≤ (2:Int)^29)
+    (hb : -(2:Int)^29 ≤ b.toInt ∧ b.toInt ≤ (2:Int)^29) :
+    (a - b).toInt = a.toInt - b.toInt := by
+  rw [Int64.toInt_sub]
+  exact bmod64 (by omega) (by omega)
+
+theorem mul_bound {x y : Int} (hx : -(2:Int)^30 ≤ x ∧ x ≤ (2:Int)^30) (hy : -(2:Int)^30 ≤ y ∧ y ≤ (2:Int)^30) :
+    -(2:Int)^60 ≤ x * y ∧ x * y ≤ (2:Int)^60 := by
+  constructor <;> nlinarith [hx.1, hx.2, hy.1, hy.2]
+
+theorem cross_toInt (p1 p2 p3 : Point64) (h1 : p1.inRange) (h2 : p2.inRange) (h3 : p3.inRange) :
+    ((((p2.X - p1.X)) * ((p3.Y - p2.Y))) - (((p2.Y - p1.Y)) * ((p3.X - p2.X)))).toInt = crossZ p1 p2 p3 := by
+  obtain ⟨a1, a2, a3, a4⟩ := h1
+  obtain ⟨b1, b2, b3, b4⟩ := h2
+  obtain ⟨c1, c2, c3, c4⟩ := h3
+  rw [Int64.toInt_sub, Int64.toInt_mul, Int64.toInt_mul,
+    sub_toInt_of_range ⟨b1, b2⟩ ⟨a1, a2⟩, sub_toInt_of_range ⟨c3, c4⟩ ⟨b3, b4⟩,
+    sub_toInt_of_range ⟨b3, b4⟩ ⟨a3, a4⟩, sub_toInt_of_range ⟨c1, c2⟩ ⟨b1, b2⟩]
+  unfold crossZ
+  have m1 := mul_bound (x := p2.X.toInt - p1.X.toInt) (y := p3.Y.toInt - p2.Y.toInt) (by omega) (by omega)
+  have m2 := mul_bound (x := p2.Y.toInt - p1.Y.toInt) (y := p3.X.toInt - p2.X.toInt) (by omega) (by omega)
+  generalize (p2.X.toInt - p1.X.toInt) * (p3.Y.toInt - p2.Y.toInt) = u at *
+  generalize (p2.Y.toInt - p1.Y.toInt) * (p3.X.toInt - p2.X.toInt) = v at *
+  rw [bmod64 (x := u) (by omega) (by omega), bmod64 (x := v) (by omega) (by omega)]
+  exact bmod64 (by omega) (by omega)
+
+theorem crossProduct_sign (p1 p2 p3 : Point64) (h1 : p1.inRange) (h2 : p2.inRange) (h3 : p3.inRange) :
+    (CrossProduct p1 p2 p3 = 0 ↔ crossZ p1 p2 p3 = 0) ∧
+    (CrossProduct p1 p2 p3 < 0 ↔ crossZ p1 p2 p3 < 0) ∧
+    (CrossProduct p1 p2 p3 > 0 ↔ crossZ p1 p2 p3 > 0) := by
+  simp only [CrossProduct, Id.run, pure, F.ofInt64, cross_toInt p1 p2 p3 h1 h2 h3]
+  exact ⟨round53_eq_zero _, round53_neg _, round53_pos _⟩
+
+theorem absU64_toNat {a : Int64} (ha : a.toInt.natAbs ≤ 2 ^ 53) :
+    (F.toU64 (F.abs (F.ofInt64 a))).toNat = a.toInt.natAbs := by
+  unfold F.toU64 F.abs F.ofInt64
+  rw [round53_id ha, UInt64.toNat_ofNat']
+  have h53 : (2:Nat)^53 < 2^64 := by decide
+  have key : (if a.toInt < (0:Int) then -a.toInt else a.toInt).toNat = a.toInt.natAbs := by
+    split <;> omega
+  show (if a.toInt < (0:Int) then -a.toInt else a.toInt).toNat % 2^64 = _
+  rw [key]
+  omega
+
+theorem triSign_sign (x : Int64) (h1 : x ≠ 1) : triSign x = x.toInt.sign := by
+  rw [triSign_spec_partial x h1]
+  split
+  · rw [Int.sign_eq_neg_one_of_neg (by assumption)]
+  · split
+    · rename_i h; rw [h]; rfl
+    · rw [Int.sign_eq_one_of_pos (by omega)]
+
+theorem int_eq_iff_natAbs_sign (z w : Int) : z = w ↔ z.natAbs = w.natAbs ∧ z.sign = w.sign := by
+  constructor
+  · rintro rfl; exact ⟨rfl, rfl⟩
+  · rintro ⟨h1, h2⟩
+    rw [← Int.sign_mul_natAbs z, ← Int.sign_mul_natAbs w, h1, h2]
+
+theorem mulU64_eq_iff (a b c d : UInt64) :
+    ((multiplyUInt64 a b).Lo64 = (multiplyUInt64 c d).Lo64 ∧ (multiplyUInt64 a b).Hi64 = (multiplyUInt64 c d).Hi64)
+      ↔ a.toNat * b.toNat = c.toNat * d.toNat := by
+  rw [← mulU64_correct a b, ← mulU64_correct c d]
+  constructor
+  · rintro ⟨h1, h2⟩; rw [h1, h2]
+  · intro h
+    have l1 := (multiplyUInt64 a b).Lo64.toNat_lt
+    have l2 := (multiplyUInt64 c d).Lo64.toNat_lt
+    constructor
+    · apply UInt64.toNat_inj.mp; omega
+    · apply UInt64.toNat_inj.mp; omega
 
 theorem productsAreEqual_iff_partial (a b c d : Int64)
     (ha : a.toInt.natAbs ≤ 2 ^ 53) (hb : b.toInt.natAbs ≤ 2 ^ 53)
     (hc : c.toInt.natAbs ≤ 2 ^ 53) (hd : d.toInt.natAbs ≤ 2 ^ 53)
     (h1 : a ≠ 1 ∧ b ≠ 1 ∧ c ≠ 1 ∧ d ≠ 1) :
     productsAreEqual a b c d = true ↔ a.toInt * b.toInt = c.toInt * d.toInt := by
-  sorry
+  obtain ⟨ha1, hb1, hc1, hd1⟩ := h1
+  simp only [productsAreEqual, Id.run, pure, Bool.and_eq_true, decide_eq_true_eq]
+  rw [mulU64_eq_iff, absU64_toNat ha, absU64_toNat hb, absU64_toNat hc, absU64_toNat hd,
+    triSign_sign a ha1, triSign_sign b hb1, triSign_sign c hc1, triSign_sign d hd1,
+    int_eq_iff_natAbs_sign (a.toInt * b.toInt), Int.natAbs_mul, Int.natAbs_mul, Int.sign_mul, Int.sign_mul]
 
 theorem productsAreEqual_iff_full_false :
     ¬ (∀ a b c d : Int64, a.toInt.natAbs ≤ 2 ^ 53 → b.toInt.natAbs ≤ 2 ^ 53 →
         c.toInt.natAbs ≤ 2 ^ 53 → d.toInt.natAbs ≤ 2 ^ 53 →
         (productsAreEqual a b c d = true ↔ a.toInt * b.toInt = c.toInt * d.toInt)) := by
-  sorry
+  intro h
+  have := (h 1 (-1) 1 1 (by decide) (by decide) (by decide) (by decide)).mp (by decide)
+  revert this
+  decide
 
 theorem isCollinear_iff_cross_zero_partial (p1 p2 p3 : Point64)
     (h1 : p1.inRange) (h2 : p2.inRange) (h3 : p3.inRange)
     (hne : p2.X - p1.X ≠ 1 ∧ p3.Y - p2.Y ≠ 1 ∧ p2.Y - p1.Y ≠ 1 ∧ p3.X - p2.X ≠ 1) :
     isCollinear p1 p2 p3 = true ↔ crossZ p1 p2 p3 = 0 := by
-  sorry
+  obtain ⟨a1, a2, a3, a4⟩ := h1
+  obtain ⟨b1, b2, b3, b4⟩ := h2
+  obtain ⟨c1, c2, c3, c4⟩ := h3
+  have e1 := sub_toInt_of_range (a := p2.X) (b := p1.X) ⟨b1, b2⟩ ⟨a1, a2⟩
+  have e2 := sub_toInt_of_range (a := p3.Y) (b := p2.Y) ⟨c3, c4⟩ ⟨b3, b4⟩
+  have e3 := sub_toInt_of_range (a := p2.Y) (b := p1.Y) ⟨b3, b4⟩ ⟨a3, a4⟩
+  have e4 := sub_toInt_of_range (a := p3.X) (b := p2.X) ⟨c1, c2⟩ ⟨b1, b2⟩
+  simp only [isCollinear, Id.run, pure]
+  rw [productsAreEqual_iff_partial _ _ _ _ (by omega) (by omega) (by omega) (by omega) hne,
+    e1, e2, e3, e4]
+  unfold crossZ
+  omega
 
 theorem isCollinear_full_false :
     isCollinear ⟨0, 0⟩ ⟨1, 2⟩ ⟨2, 0⟩ = true ∧ crossZ ⟨0, 0⟩ ⟨1, 2⟩ ⟨2, 0⟩ = -4 := by
-  sorry
-
-theorem crossProduct_sign (p1 p2 p3 : Point64) (h1 : p1.inRange) (h2 : p2.inRange) (h3 : p3.inRange) :
-    (CrossProduct p1 p2 p3 = 0 ↔ crossZ p1 p2 p3 = 0) ∧
-    (CrossProduct p1 p2 p3 < 0 ↔ crossZ p1 p2 p3 < 0) ∧
-    (CrossProduct p1 p2 p3 > 0 ↔ crossZ p1 p2 p3 > 0) := by
-  sorry
-
-theorem area64_accumulator (path : List Point64) (h : 3 ≤ path.length) :
-    Area64 path = .ok (Int64.ofInt (Spec.area2 (pathToI path))) := by
-  sorry
-
-theorem area64_exact (path : List Point64) (h : 3 ≤ path.length)
-    (hfit : -(2:Int)^63 ≤ Spec.area2 (pathToI path) ∧ Spec.area2 (pathToI path) < (2:Int)^63) :
-    ∃ a, Area64 path = .ok a ∧ a.toInt = Spec.area2 (pathToI path) := by
-  sorry
-
-theorem area64_short (path : List Point64) (h : path.length < 3) : Area64 path = .ok 0 := by
-  sorry
-
-theorem getBounds_exact (path : List Point64) (hne : path ≠ []) :
-    let r := getBounds path
-    (∀ p ∈ path, r.left ≤ p.X ∧ p.X ≤ r.right ∧ r.top ≤ p.Y ∧ p.Y ≤ r.bottom) ∧
-    (∃ p ∈ path, p.X = r.left) ∧ (∃ p ∈ path, p.X = r.right) ∧
-    (∃ p ∈ path, p.Y = r.top) ∧ (∃ p ∈ path, p.Y = r.bottom) := by
-  sorry
-
-theorem GetBounds64_exact (path : List Point64) (hne : path ≠ []) (hr : ∀ p ∈ path, p.inRange) :
-    let r := GetBounds64 path
-    (∀ p ∈ path, r.left ≤ p.X ∧ p.X ≤ r.right ∧ r.top ≤ p.Y ∧ p.Y ≤ r.bottom) ∧
-    (∃ p ∈ path, p.X = r.left) ∧ (∃ p ∈ path, p.X = r.right) ∧
-    (∃ p ∈ path, p.Y = r.top) ∧ (∃ p ∈ path, p.Y = r.bottom) := by
-  sorry
-
-theorem GetBounds64_empty : GetBounds64 [] = ⟨0, 0, 0, 0⟩ := by
-  sorry
+  decide
 
 end Proofs.C14
